@@ -15,6 +15,10 @@ RULE = (
     "value-changing edit at a random path makes every t fail, a value-preserving re-ordering does not. distinct = (payload bytes, "
     "signer set, pre-existing classes); non-trivial = >= 2 signers or a container payload."
 )
+RULE_ADDENDUM = (
+    'Additional: threads signing different envelopes with different keys followed by sequential signing with the same key objects; 65..140 signers on one envelope (forward and reverse order, foreign entries first), thresholds up to their number.'
+)
+RULE = RULE + " " + RULE_ADDENDUM
 LIMITS = ["payloads up to ~2 KB", "at most 5 signers per envelope"]
 ASSUMPTIONS = ["reference ed25519 and canonical serializer"]
 
